@@ -294,6 +294,13 @@ func (x *Exec) selectField(st *St, base *Val, name string, reads map[string]bool
 				return x.viewStep(st, &Val{HBase: base.HBase, HStruct: base.HStruct, HPath: base.HPath + "." + name, Ty: f.Type()}, reads)
 			}
 		}
+		// a ghost field of a library struct stored inline (c.mu.held)
+		if g, ok := w.Fields[w.StructKey(base.HStruct)+"."+base.HPath+"."+name]; ok && g.Ghost {
+			if reads != nil {
+				reads[g.Key] = true
+			}
+			return &Val{T: Select(x.heapTerm(st, g), base.HBase), Ty: g.Ty}
+		}
 		cfail("no field %s in %s", name, base.Ty)
 	}
 	if base.T == nil || base.T.Sort != SRef {
